@@ -8,6 +8,7 @@ import (
 	"os"
 	"runtime/debug"
 	"sort"
+	"strings"
 
 	"golang.org/x/tools/go/ssa"
 
@@ -199,6 +200,70 @@ func callsDirectly(h, g *ssa.Function) bool {
 				return true
 			}
 		}
+	}
+	return false
+}
+
+// returnedFunc: the function value a constructor-like function returns on
+// every path: the closure's function, or — when the closure became a struct
+// with a method (`return dd.dialContext`) — the method behind the bound-method
+// wrapper.  Unresolvable shapes are anchor errors.
+func (c *Ctx) returnedFunc(wrapper string) *ssa.Function {
+	w := c.fn(wrapper)
+	var out *ssa.Function
+	for _, b := range w.Blocks {
+		for _, in := range b.Instrs {
+			ret, ok := in.(*ssa.Return)
+			if !ok || len(ret.Results) == 0 {
+				continue
+			}
+			v := ret.Results[0]
+			for {
+				if ct, isCT := v.(*ssa.ChangeType); isCT {
+					v = ct.X
+					continue
+				}
+				break
+			}
+			mc, isMC := v.(*ssa.MakeClosure)
+			if !isMC {
+				continue
+			}
+			f := mc.Fn.(*ssa.Function)
+			if strings.HasPrefix(f.Synthetic, "bound method wrapper") {
+				for _, bb := range f.Blocks {
+					for _, ii := range bb.Instrs {
+						if ci, isCall := ii.(ssa.CallInstruction); isCall {
+							if g := ci.Common().StaticCallee(); g != nil && c.P.InPkg(g) {
+								f = g
+							}
+						}
+					}
+				}
+			}
+			if out != nil && out != f {
+				panic(core.AnchorErr{What: "function returned by " + wrapper + " (several)"})
+			}
+			out = f
+		}
+	}
+	if out == nil {
+		panic(core.AnchorErr{What: "function returned by " + wrapper})
+	}
+	return out
+}
+
+// isCapturedState: t is state the function fn carries from its constructor: a
+// captured variable of a closure (or a load of one), or a field of the
+// method's receiver.
+func isCapturedState(fn *ssa.Function, t *core.Term) bool {
+	t = strip(t)
+	if t.Kind == core.KFree || (t.Kind == core.KLoad && t.Args[0].Kind == core.KFree) {
+		return true
+	}
+	if t.Kind == core.KLoad && t.Args[0].Kind == core.KFieldAddr && fn.Signature.Recv() != nil && len(fn.Params) > 0 {
+		b := strip(t.Args[0].Args[0])
+		return b.Kind == core.KParam && b.Ref == fn.Params[0]
 	}
 	return false
 }
